@@ -347,6 +347,22 @@ def d3_table(ctx):
         bad = [o for o in tmp.obs if not o['ok']]
         return not bad, 'every caller of Object::int passes a range-checked or small value (R06.3)%s' % ((' — except ' + bad[0]['fn']) if bad else '')
 
+    def pop_nonempty(ctx, site):
+        ok, why = _csa_ok(ctx, ('O1', 'O2', 'O3', 'O4', 'O1-underflow'))
+        if not ok:
+            return ok, why
+        # balance is per frame: it only keeps the stack non-empty if the frame base is computed without wrapping
+        from framework import Report
+        from rules import c12
+        tmp = Report('tmp', 'quick')
+        ctx.__dict__['_in_pop_check'] = True
+        try:
+            c12.check_frame_arith(ctx, tmp, 'R12.4')
+        finally:
+            ctx.__dict__['_in_pop_check'] = False
+        bad = [o for o in tmp.obs if not o['ok'] and o['fn'] != 'vm::VM::pop']
+        return not bad, 'generated code is balanced per frame (CSA) and frame bases are computed without wrapping (R12.4)%s' % ((' — but: ' + bad[0]['construct']) if bad else '')
+
     rows = [
         ('vm::VM::run', 'Assert(Overflow)', 'R02.6/R17.1', call_arm_stack),
         ('object::Object::int', 'assert_failed', 'R06.3', int_encoder),
@@ -373,7 +389,7 @@ def d3_table(ctx):
         ('gc::GC::untrace', 'swap_remove', 'local', position_arg),
         ('vm::VM::get_local', 'index', 'R02.6', r02_6),
         ('vm::VM::set_local', 'index_mut', 'R02.6', r02_6),
-        ('vm::VM::pop', None, 'CSA balance', csa('O1', 'O2', 'O3', 'O4', 'O1-underflow')),
+        ('vm::VM::pop', None, 'CSA balance + R12.4', pop_nonempty),
         ('vm::VM::popframe', None, 'O6+R17.1', frames_inv),
         ('vm::VM::pushframe', None, 'O6+R17.1', frames_inv),
         ('vm::VM::read_u16', 'Assert(BoundsCheck)', 'local', read_u16_slice),
